@@ -669,3 +669,65 @@ Theorem quot_rem_karatsuba_fuel_bound :
          nval q = (bval x ÷ bval y)%Z /\ nval r = Z.rem (bval x) (bval y) /\ wf_num q /\ wf_num r.
 Proof. exact ProofsBound.quot_rem_total_mf. Qed.
 Print Assumptions quot_rem_karatsuba_fuel_bound.
+
+(** round 3: comparisons in which an operand is a flonum (SpecCmp.v, Model10.v: the FIX_FLO, FLO_BIG, FLO_RAT entries
+    of sexp_compare; a finite double denotes the exact dyadic rational m * 2^e) *)
+From ChibiV Require Import C04.Model10 C04.SpecCmp C04.ProofsCmp.
+
+Theorem mixed_order_is_Q : forall n d n' d' : Z, (0 < d)%Z -> (0 < d')%Z ->
+  ext_cmp (EFin n d) (EFin n' d') =
+  Some (match (n # Z.to_pos d ?= n' # Z.to_pos d')%Q with Lt => (-1)%Z | Eq => 0%Z | Gt => 1%Z end).
+Proof. exact ext_cmp_Q_spec. Qed.
+Print Assumptions mixed_order_is_Q.
+
+Theorem mixed_order_trichotomy : forall (a b : ext) (s : Z), ext_cmp a b = Some s ->
+  ext_cmp b a = Some (- s)%Z /\ (s = (-1)%Z \/ s = 0%Z \/ s = 1%Z).
+Proof. exact ext_cmp_antisym_spec. Qed.
+Print Assumptions mixed_order_trichotomy.
+
+Theorem mixed_order_transitive_through_flonum : forall (a b c : ext) (s1 s2 : Z), ext_ok a -> ext_ok b -> ext_ok c ->
+  ext_cmp a b = Some s1 -> ext_cmp b c = Some s2 -> (s1 <= 0)%Z -> (s2 <= 0)%Z ->
+  exists s3, ext_cmp a c = Some s3 /\ (s3 <= 0)%Z /\ ((s1 < 0)%Z \/ (s2 < 0)%Z -> (s3 < 0)%Z).
+Proof. exact ext_cmp_trans_spec. Qed.
+Print Assumptions mixed_order_transitive_through_flonum.
+
+Theorem mixed_compare_Q : forall (fuel rf qf mf : nat) (a b : cnum), cwf a -> cwf b -> (ctype a <= ctype b)%Z ->
+  match a, b with CFlo _, CFlo _ => False | _, _ => True end -> (1100 <= fuel)%nat ->
+  match cmp_le fuel rf qf mf a b with
+  | CV c => ext_cmp (cval a) (cval b) = Some (Z.sgn c)
+  | CNan => ext_cmp (cval a) (cval b) = None
+  | CFuel => True
+  end.
+Proof. exact cmp_le_spec. Qed.
+Print Assumptions mixed_compare_Q.
+
+Theorem mixed_compare_ordered : forall (fuel rf qf mf : nat) (a b : cnum) (c : Z), cwf a -> cwf b -> (ctype a <= ctype b)%Z ->
+  match a, b with CFlo _, CFlo _ => False | _, _ => True end -> (1100 <= fuel)%nat ->
+  x_compare fuel rf qf mf a b = CV c -> ext_cmp (cval a) (cval b) = Some (Z.sgn c).
+Proof. exact x_compare_ordered_spec. Qed.
+Print Assumptions mixed_compare_ordered.
+
+Theorem mixed_compare_swapped_partial : forall (fuel rf qf mf : nat) (a b : cnum) (c : Z), cwf a -> cwf b -> (ctype b < ctype a)%Z ->
+  match a, b with CFlo _, CFlo _ => False | _, _ => True end -> (1100 <= fuel)%nat ->
+  x_compare fuel rf qf mf a b = CV c ->
+  exists c0, cmp_le fuel rf qf mf b a = CV c0 /\ c = wrap_fix (- c0) /\
+             (fits_fix (- c0) = true -> ext_cmp (cval a) (cval b) = Some (Z.sgn c)).
+Proof. exact x_compare_swapped_partial. Qed.
+Print Assumptions mixed_compare_swapped_partial.
+
+(** the FLO_FLO entry (two doubles) and with it EVERY entry of the switch, operands in type order *)
+From ChibiV Require Import C04.ProofsCmp2.
+
+Theorem flonum_compare_is_dyadic_order : forall m e m' e' : Z,
+  dy_cmp m e m' e' = Z.sgn (fst (dy_val m e) * snd (dy_val m' e') - fst (dy_val m' e') * snd (dy_val m e)).
+Proof. exact dy_cmp_spec. Qed.
+Print Assumptions flonum_compare_is_dyadic_order.
+
+Theorem mixed_compare_all_entries : forall (fuel rf qf mf : nat) (a b : cnum), cwf a -> cwf b -> (ctype a <= ctype b)%Z -> (1100 <= fuel)%nat ->
+  match cmp_le fuel rf qf mf a b with
+  | CV c => ext_cmp (cval a) (cval b) = Some (Z.sgn c)
+  | CNan => ext_cmp (cval a) (cval b) = None
+  | CFuel => True
+  end.
+Proof. exact cmp_le_spec_all. Qed.
+Print Assumptions mixed_compare_all_entries.
